@@ -137,7 +137,20 @@ ToSet(s) == {s[i] : i \in 1..Len(s)}
 Inv_Once == /\ \A i, j \in 1..Len(out) : i # j => out[i] # out[j]
             /\ ToSet(out) \cup ToSet(buffer) \subseteq ToSet(Arrived)
 (* at the end: every item, the burst sorted first, then the rest in arrival order *)
-SplitOK(o) == \E k \in 0..N : o = ByKey(SubSeq(All, 1, k)) \o SubSeq(All, k + 1, N)
+\* the documented window closes D after the last item that arrived while it was open, at most at M; the burst holds at
+\* least the items that arrived before that moment and at most those that arrived up to it
+RECURSIVE Win(_, _)
+Win(i, c) == IF i > N THEN Min(c, M)
+             ELSE IF scen.t[i] < Min(c, M) THEN Win(i + 1, scen.t[i] + D) ELSE Win(i + 1, c)
+W == Win(1, D)
+NEarly == Cardinality({i \in 1..N : scen.t[i] < W})
+\* latest close: an item arriving at the very instant the window would close may still be taken into it and extend it
+RECURSIVE WinLe(_, _)
+WinLe(i, c) == IF i > N THEN Min(c, M)
+               ELSE IF scen.t[i] <= Min(c, M) THEN WinLe(i + 1, scen.t[i] + D) ELSE WinLe(i + 1, c)
+WLate == WinLe(1, D)
+NLate == Cardinality({i \in 1..N : scen.t[i] <= WLate})
+SplitOK(o) == \E k \in NEarly..NLate : o = ByKey(SubSeq(All, 1, k)) \o SubSeq(All, k + 1, N)
 Inv_BurstFirst == closed => SplitOK(out)
 (* the same with the known failure shape carved out (used when Dev_PassthroughOnSignal = TRUE) *)
 Inv_BurstFirst_KF == (closed /\ ~H_early) => SplitOK(out)
